@@ -2,6 +2,7 @@ import CaresLemmas.ChanPolicyWritesTop
 import CaresLemmas.ChanPolicyDeadline
 import CaresLemmas.ChanPolicyProgress
 import CaresLemmas.ChanPolicyTxExec
+import CaresLemmas.ChanPolicyCalc
 /-!
 # C06 — Retries are bounded, policy-conforming, and every query terminates (channel state machine)
 
@@ -29,6 +30,11 @@ truncation branch, `bodyFlushRequeue` = the deferred-requeue flush of `read_answ
 * `deadline_within_policy`, `jitter_within_policy` — each attempt waits at least the base timeout
   (`St.serverTimeout`) and, when a maximum is configured, at most that maximum; an observed jittered deadline outside
   the admitted interval is flagged as an observation fault by `settle`.
+* `deadline_agrees_calc`, `calc_deadline_accepted` — agreement with the arithmetic model of `ares_calc_query_timeout`
+  (`Proto.Timeout.calcWith` / `calcQueryTimeout`, C06a): the first pass waits exactly what `calcWith` returns; from
+  the second pass on, for `timeplus < 2²³` ms, the admitted interval is exactly the set of values `calcWith` takes
+  for jitter amounts up to half of `timeplus`, every 16-bit draw of the tree's function (exact binary32 jitter) lies
+  in it, the draw 0 yields its upper end, and `settle` accepts such a deadline without an observation fault.
 * `timeouts_make_progress` — `process_timeouts` returns with no expired entry left (unless it reports a model fault or
   runs out of fuel); each expiry re-sends with `try_count + 1 < servers × tries` or ends the query.
 -/
@@ -204,5 +210,130 @@ example : exSent.txs.map (·.key) = [0] ∧ exSent.writeLog = [0] := by decide
     inside `[now + 1000, now + 2000]` -/
 example : (sqDeadline exSt exServers.head! 0).1 = .at 1000 ∧
     (sqDeadline exSt exServers.head! 1).1 = .pending 1000 2000 := by decide
+
+/-! ## agreement with the arithmetic model of `ares_calc_query_timeout` (C06a) -/
+
+open Cares.Proto.Timeout Cares.Generated.Proto in
+/-- **deadline_agrees_calc.**  `T` = the base timeout of the server (`ares_metrics_server_timeout`), `n` = number of
+    servers (positive: a server was chosen), `tp` = the channel model's doubled and capped `timeplus`.
+    * First pass (`try_count < n`): the deadline is exactly `now + calcWith …`, whatever the shift flavour and jitter.
+    * Later passes, **for `tp < 2²³` ms**: the deadline is `.pending (now + lo) (now + hi)` with `lo = max T (tp − tp/2)`,
+      `hi = max T tp`, and
+      (i) for every 16-bit draw `r` the value `calcQueryTimeout T maxtimeout try_count n r` of the tree under check
+          (guarded shift, exact binary32 jitter) lies in `[lo, hi]`;
+      (ii) the draw `0` yields `hi`;
+      (iii) `[lo, hi]` is exactly the set of values of `calcWith` over the jitter amounts `d ≤ tp/2`.
+    The bound is needed for (i): for larger `tp` the binary32 roundings can take away one unit more than `tp/2`
+    (C06a's `jitterOk` allows `tp/2 + tp/2²⁴ + tp/2⁴⁹`); the values before the jitter agree as long as `tp ≤ 2⁶³ − 1`
+    (`preJitter_eq_chan`). -/
+theorem deadline_agrees_calc (s : St) (srvNow : Server) (tryCount : Nat) (hn : 0 < s.servers.length) :
+    let T := s.serverTimeout srvNow
+    let n := s.servers.length
+    let mx := s.cfg.maxtimeout
+    let tp := chanTimeplus T mx (tryCount / n)
+    (tryCount / n = 0 → ∀ g jit,
+      (sqDeadline s srvNow tryCount).1 = .at (s.now + (calcWith g jit T mx tryCount n).timeplus)) ∧
+    (0 < tryCount / n → tp < 2 ^ 23 →
+      (sqDeadline s srvNow tryCount).1 = .pending (s.now + chanLo T tp) (s.now + chanHi T tp) ∧
+      (∀ r, r ≤ USHRT_MAX →
+        chanLo T tp ≤ (calcQueryTimeout T mx tryCount n r).timeplus ∧
+        (calcQueryTimeout T mx tryCount n r).timeplus ≤ chanHi T tp) ∧
+      (calcQueryTimeout T mx tryCount n 0).timeplus = chanHi T tp ∧
+      (∀ v, (chanLo T tp ≤ v ∧ v ≤ chanHi T tp) ↔
+        ∃ d, d ≤ tp / 2 ∧ (calcWith true (fun _ => d) T mx tryCount n).timeplus = v)) := by
+  intro T n mx tp
+  have hT : 0 < T := by
+    have h1 := serverTimeout_ge s srvNow
+    have h2 : 0 < timeoutCap s.cfg := by
+      unfold timeoutCap
+      split
+      · rename_i h
+        have : s.cfg.maxtimeout ≠ 0 := by simpa using h
+        omega
+      · omega
+    show 0 < s.serverTimeout srvNow
+    omega
+  have hcapT : mx ≠ 0 → T ≤ mx := by
+    intro hm
+    have := serverTimeout_le_cap s srvNow
+    unfold timeoutCap at this
+    rw [if_pos (by simpa using hm)] at this
+    exact this
+  constructor
+  · intro hr g jit
+    obtain ⟨h1, h2⟩ := calcWith_first_pass g jit T mx tryCount n hn hr hcapT
+    have hr' : tryCount / s.servers.length = 0 := hr
+    rw [sqDeadline_eq, if_neg (show ¬ tryCount / s.servers.length > 0 by omega), h1]
+    show Deadline.at (s.now + max (chanTimeplus T mx (tryCount / n)) T) = _
+    rw [h2]
+  · intro hr htp
+    have e3 : (2 : Nat) ^ 23 = 8388608 := by decide
+    have hfit : chanTimeplus T mx (tryCount / n) ≤ MAX_TIMEPLUS := by
+      rw [max_timeplus_val]
+      have : tp < 8388608 := by rw [← e3]; exact htp
+      show tp ≤ _
+      omega
+    have hg : (CALC_SHIFT_GUARDED == 1) = true := by decide
+    have hval : ∀ jit : Nat → Nat, jit tp ≤ tp / 2 →
+        (calcWith true jit T mx tryCount n).timeplus = max T (tp - jit tp) := by
+      intro jit hj
+      exact calcWith_jittered jit T mx tryCount n hn hT hr hfit (Nat.le_trans hj (Nat.div_le_self _ _))
+    refine ⟨?_, ?_, ?_, ?_⟩
+    · rw [sqDeadline_eq, if_pos hr]
+    · intro r hr16
+      have hj : jitterExact tp r ≤ tp / 2 := jitterExact_le_half tp r hr16 htp
+      have e : (calcQueryTimeout T mx tryCount n r).timeplus = max T (tp - jitterExact tp r) := by
+        unfold calcQueryTimeout; rw [hg]; exact hval _ hj
+      rw [e]
+      exact (chan_interval_iff T tp _).2 ⟨_, hj, rfl⟩
+    · have e : (calcQueryTimeout T mx tryCount n 0).timeplus = max T (tp - jitterExact tp 0) := by
+        unfold calcQueryTimeout; rw [hg]; exact hval _ (by rw [jitterExact_zero]; exact Nat.zero_le _)
+      rw [e, jitterExact_zero]
+      rfl
+    · intro v
+      rw [chan_interval_iff]
+      constructor
+      · rintro ⟨d, hd, rfl⟩
+        exact ⟨d, hd, hval (fun _ => d) hd⟩
+      · rintro ⟨d, hd, rfl⟩
+        exact ⟨d, hd, hval (fun _ => d) hd⟩
+
+open Cares.Proto.Timeout Cares.Generated.Proto in
+/-- **calc_deadline_accepted**: a query whose jittered deadline was set by `sqDeadline` and for which the observation
+    reports the remaining time `calcQueryTimeout …` of *some* 16-bit draw is settled to exactly that deadline, and
+    `settle` logs no observation fault (converse direction of `jitter_within_policy`) -/
+theorem calc_deadline_accepted (s0 : St) (srvNow : Server) (tryCount : Nat) (hn : 0 < s0.servers.length)
+    (hr : 0 < tryCount / s0.servers.length)
+    (htp : chanTimeplus (s0.serverTimeout srvNow) s0.cfg.maxtimeout (tryCount / s0.servers.length) < 2 ^ 23)
+    (s : St) (k : Nat) (q : Query) (hq : s.query? k = some q) (hnow : s.now = s0.now)
+    (hd : q.deadline = (sqDeadline s0 srvNow tryCount).1)
+    (r id : Nat) (hr16 : r ≤ USHRT_MAX)
+    (ho : s.obs.dls.find? (·.1 == q.qid) = some (id,
+      ((calcQueryTimeout (s0.serverTimeout srvNow) s0.cfg.maxtimeout tryCount s0.servers.length r).timeplus : Int))) :
+    (settleStep s k).obsFaults = s.obsFaults ∧
+    (settleStep s k).dl? k = some (.at (s.now +
+      (calcQueryTimeout (s0.serverTimeout srvNow) s0.cfg.maxtimeout tryCount s0.servers.length r).timeplus)) := by
+  obtain ⟨hpend, hin, _, _⟩ := (deadline_agrees_calc s0 srvNow tryCount hn).2 hr htp
+  rw [hpend] at hd
+  have hv : (Int.ofNat s.now + ((calcQueryTimeout (s0.serverTimeout srvNow) s0.cfg.maxtimeout tryCount
+      s0.servers.length r).timeplus : Int)).toNat =
+      s.now + (calcQueryTimeout (s0.serverTimeout srvNow) s0.cfg.maxtimeout tryCount s0.servers.length r).timeplus := by
+    show ((s.now : Int) + _).toNat = _
+    omega
+  have := settleStep_accepts s k q _ _ id _ hq hd ho
+    (by rw [hv, hnow]; exact Nat.add_le_add_left (hin r hr16).1 _)
+    (by rw [hv, hnow]; exact Nat.add_le_add_left (hin r hr16).2 _)
+  rw [hv] at this
+  exact this
+
+open Cares.Proto.Timeout in
+/-- non-vacuity: second pass with one server, base 1000 ms: the interval is `[1000, 2000]`; the draws 0, 65535 and
+    12345 of the tree's function give 2000 (upper end), 1000 (lower end) and a value in between; at `tp = 2²³ − 1` the
+    extreme draw still takes away exactly `⌊tp/2⌋` -/
+example : (sqDeadline exSt exServers.head! 1).1 = .pending (exSt.now + chanLo 1000 2000) (exSt.now + chanHi 1000 2000) ∧
+    chanLo 1000 2000 = 1000 ∧ chanHi 1000 2000 = 2000 ∧ chanTimeplus 1000 0 1 = 2000 ∧
+    (calcQueryTimeout 1000 0 1 1 0).timeplus = 2000 ∧ (calcQueryTimeout 1000 0 1 1 65535).timeplus = 1000 ∧
+    (calcQueryTimeout 1000 0 1 1 12345).timeplus = 1812 ∧
+    jitterExact (2 ^ 23 - 1) 65535 = (2 ^ 23 - 1) / 2 := by decide +kernel
 
 end Cares.C06
